@@ -8,7 +8,8 @@ Case `lex <chars>`: `<chars>` = `-` or `,`-joined `hexcp[:classhex]` (class bits
 `lex=<ok|fail|panic|hang> toks=<..> errs=<..> parse=<ok|err|panic|hang> badspans=<n> tokbad=<n> render=<n> ndiag=<n> foreign=<n> src=<tag>`.
 The model (`SwayVerif.Lexer.lex`) is run on the text; `agree` compares outcome, flattened tokens (kinds, spans, parsed
 values) and errors (kinds, spans) — the `unicodeTextDirInLiteral` errors are left out of the comparison (their
-presence is not part of C16; `bidi_same` reports whether they coincide). `prop` = `SwayVerif.Lexer.propHolds`.
+presence is not part of C16; `bidi_same` reports whether they coincide; likewise bidi characters are removed from
+the parsed value of string tokens on both sides). `prop` = `SwayVerif.Lexer.propHolds`.
 
 Case `whole <len> <hash>`: an input larger than the window bound, evaluated in Rust only; `prop` from the fields.
 Case `nest <kind> <depth> <stackMiB>`: generated nested input run in a child process; `prop` = it did not die.
@@ -108,6 +109,18 @@ def sizeClass (n : Nat) : String :=
 
 def isBidi (s : String) : Bool := s.startsWith "BIDI@"
 
+/-- The twelve `unicode_bidi::format_chars` code points (hex), as they appear in a transmitted parsed string. -/
+def bidiHex : List String := ["61c", "2068", "202a", "2066", "200e", "202d", "202c", "2069", "202b", "2067", "200f", "202e"]
+
+/-- Rejection of text-direction characters is not part of C16: in the comparison a string token's parsed value is
+taken without them (the real lexer drops them from `parsed` together with reporting the error). -/
+def normTok (t : String) : String :=
+  if t.startsWith "s@" then
+    match t.splitOn "=" with
+    | [h, v] => h ++ "=" ++ ".".intercalate ((v.splitOn ".").filter (fun c => !bidiHex.contains c))
+    | _ => t
+  else t
+
 def answerLex (chars : String) (post : List String) : String :=
   match parseCCs chars with
   | none => "bad-chars agree=0 prop=0"
@@ -136,10 +149,10 @@ def answerLex (chars : String) (post : List String) : String :=
     let iErrsNB := implErrs.filter (!isBidi ·)
     let bidiSame := mErrs.filter isBidi == implErrs.filter isBidi
     let cmpErrs := mLex != "panic"
-    let agree := mLex == implLex && mToks == implToks && (!cmpErrs || mErrsNB == iErrsNB)
+    let agree := mLex == implLex && mToks.map normTok == implToks.map normTok && (!cmpErrs || mErrsNB == iErrsNB)
     let diff := if agree then "" else
       if mLex != implLex then s!" diff=outcome:{mLex}|{implLex}"
-      else if mToks != implToks then s!" diff=tok{firstDiff mToks implToks 0}"
+      else if mToks.map normTok != implToks.map normTok then s!" diff=tok{firstDiff (mToks.map normTok) (implToks.map normTok) 0}"
       else s!" diff=err{firstDiff mErrsNB iErrsNB 0}"
     let mb := text.any (fun x => x.c.toNat ≥ 128)
     s!"{mLex} ntoks={mToks.length} nerrs={mErrs.length} agree={b01 agree} prop={b01 prop} lex={implLex} parse={look kv "parse"} " ++
